@@ -4,9 +4,70 @@
 package kf
 
 import (
+	"fmt"
+	"strings"
+
+	"golang.org/x/net/idna"
+
+	"github.com/nlnwa/whatwg-url/errors"
+	"github.com/nlnwa/whatwg-url/url"
+
 	"verif/core"
 )
 
 func init() {
-	_ = core.RegisterClassifier
+	core.RegisterClassifier("ace-label-of-std3-fallback", aceLabelOfSTD3Fallback)
 }
+
+// hostOfHref cuts the host out of a serialized URL (scheme://[userinfo@]host[:port]...).
+func hostOfHref(href string) string {
+	i := strings.Index(href, "://")
+	if i < 0 {
+		return ""
+	}
+	rest := href[i+3:]
+	if j := strings.IndexAny(rest, "/?#"); j >= 0 {
+		rest = rest[:j]
+	}
+	if j := strings.LastIndex(rest, "@"); j >= 0 {
+		rest = rest[j+1:]
+	}
+	if strings.HasPrefix(rest, "[") {
+		return rest
+	}
+	if j := strings.LastIndex(rest, ":"); j >= 0 {
+		rest = rest[:j]
+	}
+	return rest
+}
+
+// KF-A: the ToASCII fallback for U+2260 / U+226E / U+226F ("disallowed_STD3_valid") emits an
+// ACE label that the strict IDNA profile rejects when the serialization is parsed again.
+// Witness shape: Expected holds the serialization; re-parsing it fails with error type
+// DomainToASCII, and its host has an xn-- label whose Punycode decoding contains one of the
+// three code points.
+func aceLabelOfSTD3Fallback(prop string, v *core.Violation) bool {
+	href, ok := v.Expected.(string)
+	if !ok || href == "" {
+		return false
+	}
+	_, err := url.Parse(href)
+	if err == nil || errors.Type(err) != errors.DomainToASCII {
+		return false
+	}
+	for _, label := range strings.Split(hostOfHref(href), ".") {
+		if len(label) < 4 || !strings.EqualFold(label[:4], "xn--") {
+			continue
+		}
+		dec, derr := idna.ToUnicode(label)
+		if derr != nil && dec == "" {
+			continue
+		}
+		if strings.ContainsAny(dec, "≠≮≯") {
+			return true
+		}
+	}
+	return false
+}
+
+var _ = fmt.Sprint
